@@ -12,6 +12,7 @@ from hypothesis import strategies as st
 
 from .. import formcheck, inputs, kernels, refeval, specs, strategies
 from ..common import Run, ShardResult, pmap, run_shards, scratch, spec_hash, verif_seed
+from ..common import thorough  # noqa: E402
 from ..hyp import Outcome, drive
 
 PROP = "C19"
@@ -345,7 +346,7 @@ def run(tier: str) -> int:
             run_.fail(f"{PROP}:same-size-rules:{cell}:{a[:4]}:{b[:4]}", f"rules {a[:4]} and {b[:4]} on {cell} (both {n} points) in one kernel: {what}",
                       {"spec": pair_form_spec(cell, tuple(a) + (None,), tuple(b) + (None,), same_integrand=True)}, bucket=f"{PROP}:same-size-rules")
     probe_bessel_strict_c17(run_)
-    n = 8 if tier == "quick" else 180
+    n = 8 if tier == "quick" else thorough(80)
     for part in run_shards(shard, 16, n=n, seed=verif_seed()):
         run_.merge(part)
     run_.assumptions = [
